@@ -2423,7 +2423,11 @@ fn oracle_c13(fields: &[&str]) -> String {
             continue;
         }
         let shift = if kind == "lon0" { extra[0].to_radians() } else { 0.0 };
-        if !close(x[0], y[0] + shift, 0.0, 2e-11) || !close(x[1], y[1], 0.0, 2e-11) {
+        // (a longitude comes back as an equivalent angle: tmerc and others normalise theirs to [-pi, pi])
+        let turn = std::f64::consts::TAU;
+        let dl = (x[0] - (y[0] + shift)).rem_euclid(turn);
+        let lon_ok = if kind == "lon0" { dl.min(turn - dl) <= 2e-11 || (x[0].is_nan() && y[0].is_nan()) } else { close(x[0], y[0] + shift, 0.0, 2e-11) };
+        if !lon_ok || !close(x[1], y[1], 0.0, 2e-11) {
             return format!("oracle FAIL [{kind}] inverse tuple {i}: {a} gives ({}, {}), {b} gives ({}, {})", x[0], x[1], y[0] + shift, y[1]);
         }
     }
